@@ -662,7 +662,7 @@ func genRowCount(t *rapid.T, lo, hi int, label string) int {
 // large cases cost a handful of draws, stay small on disk and shrink quickly.
 
 type Scale struct {
-	Rows  int   `json:"rows"`  // size of the expanded table (200..700)
+	Rows  int   `json:"rows"`  // size of the expanded table (200..700, a quarter of them 1000..2600)
 	Block []int `json:"block"` // row i of the expanded table is a copy of drawn row Block[i mod len] (mod number of drawn rows)
 	// optionally one column is spread over many distinct values: the index into KeyPool starts at Start and
 	// advances from row to row by the cycle Steps (1 = round robin, 0 = runs, larger = keys first met out of
@@ -680,8 +680,13 @@ func genScale(t *rapid.T, oneIn int, label string) *Scale {
 	if rapid.IntRange(0, 1<<20).Draw(t, label+".large")%oneIn != oneIn-1 {
 		return nil
 	}
+	rows := rapid.IntRange(200, 700).Draw(t, label+".rows")
+	if rapid.IntRange(0, 3).Draw(t, label+".huge") == 0 {
+		// a quarter of the large tables is larger still: thresholds of size-dependent strategies need not be small
+		rows = rapid.IntRange(1000, 2600).Draw(t, label+".hugerows")
+	}
 	return &Scale{
-		Rows:  rapid.IntRange(200, 700).Draw(t, label+".rows"),
+		Rows:  rows,
 		Block: rapid.SliceOfN(rapid.IntRange(0, 63), 1, 16).Draw(t, label+".block"),
 	}
 }
